@@ -22,9 +22,10 @@ from sfv.tbwire import Interner, tb_wire_from_blocks, answer_tb, real_tb_view
 from sfv import ops
 from sfv.props import c03_shift   # roll / shift: TypeBlocks._shift_blocks, util.array_shift (cases 'shift')
 from sfv.props import c03_binop   # binary operators: operand splitting of TypeBlocks._ufunc_binary_operator (cases 'bo_*')
+from sfv.props import c03_resize  # reindex / label alignment: TypeBlocks.resize_blocks at the block level (cases 'resize')
 
 # sub-modules bringing their own model files, theorems, cases and evaluation; a case belongs to the first whose OWNS accepts its kind
-SUBS = [(c03_shift, lambda k: k == 'shift'), (c03_binop, lambda k: k.startswith('bo_'))]
+SUBS = [(c03_shift, lambda k: k == 'shift'), (c03_binop, lambda k: k.startswith('bo_')), (c03_resize, lambda k: k == 'resize')]
 
 
 def _sub(c):
@@ -34,7 +35,7 @@ def _sub(c):
     return None
 
 
-TARGETS = ['SFModel.Props.C03'] + c03_shift.TARGETS + c03_binop.TARGETS
+TARGETS = ['SFModel.Props.C03'] + c03_shift.TARGETS + c03_binop.TARGETS + c03_resize.TARGETS
 THEOREMS = [
     'SF.C03.cols_wf', 'SF.C03.fromBlocks_sound', 'SF.C03.index_spec', 'SF.C03.contiguous_pairs_expand',
     'SF.C03.contiguous_pairs_total', 'SF.C03.extract_refines', 'SF.C03.layout_unobservable_extract',
@@ -42,14 +43,14 @@ THEOREMS = [
     'SF.C03.caches_ofBlocks_coherent', 'SF.C03.caches_append_coherent', 'SF.C03.caches_history_coherent',
     'SF.C03.caches_history_row_dtype', 'SF.C03.caches_grown_from_empty', 'SF.C03.row_dtype_history_differs',
     'SF.C03.row_dtype_history_agrees_of_preserving',
-] + c03_shift.THEOREMS + c03_binop.THEOREMS
-PARTIAL = list(c03_shift.PARTIAL) + list(c03_binop.PARTIAL)
-CORR_ONLY = ['every single-frame public operation of harness/sfv/ops.py not mirrored in Blocks.lean is covered by the two-layout oracle only'] + c03_binop.CORR_ONLY
+] + c03_shift.THEOREMS + c03_binop.THEOREMS + c03_resize.THEOREMS
+PARTIAL = list(c03_shift.PARTIAL) + list(c03_binop.PARTIAL) + list(c03_resize.PARTIAL)
+CORR_ONLY = ['every single-frame public operation of harness/sfv/ops.py not mirrored in Blocks.lean is covered by the two-layout oracle only'] + c03_binop.CORR_ONLY + c03_resize.CORR_ONLY
 RULE = ('tb: random frames (<=4 rows, <=6 cols, dtype runs) x random layout x op x keys, model vs real TypeBlocks; '
         'layout: random frame x two different layouts with equal per-column dtypes x one operation of the catalogue '
         '(thorough: every layout of the frame); non-trivial = at least two columns and, for layout cases, two distinct layouts; '
-        'distinct = distinct canonical case JSON; ' + c03_shift.RULE + '; ' + c03_binop.RULE)
-TRUSTED = ['NumPy indexing of one block is a model parameter (list selection), validated by the tb correspondence'] + c03_shift.TRUSTED + c03_binop.TRUSTED
+        'distinct = distinct canonical case JSON; ' + c03_shift.RULE + '; ' + c03_binop.RULE + '; ' + c03_resize.RULE)
+TRUSTED = ['NumPy indexing of one block is a model parameter (list selection), validated by the tb correspondence'] + c03_shift.TRUSTED + c03_binop.TRUSTED + c03_resize.TRUSTED
 ASSUMPTIONS = ['the operation catalogue (harness/sfv/ops.py) samples the public single-frame interface; operations outside it are not exercised']
 BUDGET = {'quick': 200, 'thorough': 1700}
 
@@ -79,6 +80,7 @@ def cases(ctx):
     # sub-modules first (own random streams: the streams below are unchanged), so that the budget never cuts them off
     yield from c03_shift.cases(ctx)
     yield from c03_binop.cases(ctx)
+    yield from c03_resize.cases(ctx)
     rng = ctx.rng('main')
     quick = ctx.tier == 'quick'
     for i in range(5000 if quick else 40000):
